@@ -153,6 +153,10 @@ def consume_paths(facts, body, buf_local=1, extra_guard=None):
         if ev is None:
             if nm in ("panic", "panic_fmt", "unwrap_failed", "expect_failed", "panic_bounds_check", "assert_failed"):
                 ev = ("panic", bb)
+            elif nm == "from_residual" and (t.get("dest") or {}).get("l") == 0 and not (t.get("dest") or {}).get("p") \
+                    and "result::Result" in c["path"].replace("std::", "core::"):
+                # `?` on the Err of an (inlined) helper: the function returns Err
+                ev = ("ret", "Err", "residual")
         if ev is not None and ev not in auto:
             return auto + (ev,)
         return auto
